@@ -962,6 +962,22 @@ func (e *CEnv) callExpr(x *CExpr) (Val, error) {
 		}
 		c.smt.declareFun("iface_payload", []string{"Int"}, "Int")
 		return Val{T: types.NewPointer(st), Term: app("iface_payload", c.termOf(iv))}, nil
+	case "holdsValue":
+		// holdsValue(x, T): the dynamic type of the interface value x is exactly T (a T stored by value, also for struct types)
+		if len(x.Args) != 2 {
+			return Val{}, fmt.Errorf("holdsValue(iface, Type)")
+		}
+		iv, err := e.eval(x.Args[0])
+		if err != nil {
+			return Val{}, err
+		}
+		tt, err := e.resolveType(&CType{Kind: "name", Name: strings.ReplaceAll(x.Args[1].String(), " ", "")})
+		if err != nil {
+			return Val{}, err
+		}
+		c.smt.declareFun("iface_type", []string{"Int"}, "Int")
+		it := c.termOf(iv)
+		return Val{T: tBool, Term: and(not(eq(it, "0")), eq(app("iface_type", it), fmt.Sprint(goTypeTag(tt))))}, nil
 	case "isType":
 		// isType(x, T): the interface value x holds a *T (T a struct type), or a T for other types
 		if len(x.Args) != 2 {
@@ -1023,6 +1039,14 @@ func (e *CEnv) callExpr(x *CExpr) (Val, error) {
 		}
 		t := c.toFloat(as[0], as[0].Term)
 		return Val{T: tFloat, Term: ite(app(">=", t, "0.0"), t, app("-", t))}, nil
+	case "ctxChan":
+		// ctxChan(ch): ch is a channel handed out by package context (ctx.Done()); channels made by gostatsd are not
+		as, err := evalArgs()
+		if err != nil {
+			return Val{}, err
+		}
+		c.smt.declareFun("ctx_chan", []string{"Int"}, "Bool")
+		return Val{T: tBool, Term: app("ctx_chan", as[0].Term)}, nil
 	case "posInf":
 		// posInf(): math.Inf(1) -- the IEEE value, or (floats real) the same uninterpreted real the model of math.Inf gives
 		if c.floatsIEEE {
